@@ -53,6 +53,36 @@ def lock_decl(e):
     return None
 
 
+STD_MUTEXES = ("std::mutex", "std::recursive_mutex", "std::timed_mutex", "std::recursive_timed_mutex", "std::shared_mutex", "std::shared_timed_mutex")
+
+
+def lock_ctor_extra(e):
+    """arguments of the lock object's constructor beyond the mutex(es): defer_lock / try_to_lock / adopt_lock / a timeout
+    make the lock object one that may NOT own the mutex afterwards (scoped_lock takes several mutexes: all are mutexes)"""
+    x = e.get("expr")
+    out = []
+    for v in x.get("vars", []):
+        t = v.get("type", "")
+        init = ir.unwrap(v.get("init"))
+        if isinstance(init, dict) and init.get("k") == "construct":
+            args = [a for a in init.get("args", []) if not (isinstance(a, dict) and a.get("k") == "defarg")]
+            if "scoped_lock" in t:
+                continue
+            out += args[1:]
+    return out
+
+
+def lock_mutex_type(e):
+    x = e.get("expr")
+    for v in x.get("vars", []):
+        t = (v.get("type") or "").replace(" ", "")
+        for lt in LOCK_TYPES:
+            i = t.find(lt + "<")
+            if i >= 0:
+                return t[i + len(lt) + 1:].rstrip(">").strip()
+    return None
+
+
 def analyse_method(f, stream):
     """returns list of (ref_node, ln, state) where state = frozenset of lock generations held (must-info)"""
     TOP = None
@@ -62,6 +92,8 @@ def analyse_method(f, stream):
             s = frozenset()
         ld = lock_decl(e)
         if ld:
+            if lock_ctor_extra(e):
+                return s  # constructed without (necessarily) owning the mutex: held only after an explicit lock()
             return s | {(ld[0], "%d.%d" % (bid, i))}
         if e["kind"] == "auto_dtor":
             return frozenset(x for x in s if x[0] != e.get("var"))
@@ -181,6 +213,7 @@ def run(ctx):
     ctx.rule("R09.3", "no other function of the sink, logger or smart_stream touches the guarded stream")
     ctx.rule("R09.4", "smart_stream keeps per-object state only; no static or thread-shared buffer on the statement->sink path")
     ctx.rule("R09.5", "logger::instance() returns a function-local static")
+    ctx.rule("R09.6", "the scoped lock blocks until it owns the mutex; the mutex is a standard one or a hand-written lock whose acquire loop is verified")
 
     nsinks = 0
     nrefs = 0
@@ -225,6 +258,17 @@ def run(ctx):
                         ctx.bad("R09.2", f, "mutex-storage", desc, (f, e.get("ln")))
                     else:
                         ctx.broken("R09.2", f, "mutex-storage", desc, (f, e.get("ln")))
+                    # R09.6: the lock object blocks until it owns the mutex, and the mutex really excludes
+                    extra = lock_ctor_extra(e)
+                    ctx.check(not extra, "R09.6", f, "lock-acquires-unconditionally",
+                              "the lock object is constructed with %s: it may not own the mutex when the stream is written (a timed or try lock that fails falls through "
+                              "into the unprotected write)" % [fmt(a) for a in extra], (f, e.get("ln")), why_ok="blocking constructor")
+                    mt = lock_mutex_type(e) or ""
+                    mtn = mt if mt.startswith("std::") else mt
+                    if mtn in STD_MUTEXES or ("std::" + mtn) in STD_MUTEXES:
+                        ctx.ok("R09.6", f, "mutex-type", "standard mutex %s" % mt, (f, e.get("ln")))
+                    else:
+                        _check_lockable(ctx, f, mt, e)
         if not touched:
             ctx.broken("R09.1", cls, "stream-use", "no method of %s references %s: sink idiom not recognised" % (cls, stream), "-")
         # other streams touched by the sink at all? (e.g. writing to cerr from the cout sink unguarded)
@@ -351,3 +395,93 @@ def run(ctx):
 
 def _rel(f, ln):
     return "+%d" % ((ln or f.line) - f.line)
+
+
+def _check_lockable(ctx, f, mt, e):
+    """a hand-written BasicLockable: lock() may return only after ITS atomic read-modify-write observed `free` and set `taken`"""
+    prog = ctx.prog
+    cands = [c for c in prog.classes if c.endswith("::" + mt.split("::")[-1]) or c == mt]
+    lockf = [g for c in cands for g in prog.methods_of(c) if g.name == "lock" and g.has_cfg]
+    unlockf = [g for c in cands for g in prog.methods_of(c) if g.name == "unlock" and g.has_cfg]
+    if len(lockf) != 1 or len(unlockf) != 1:
+        ctx.broken("R09.6", f, "mutex-type", "the lock guards a `%s`, which is neither a standard mutex nor a class with analysable lock()/unlock()" % mt, (f, e.get("ln")))
+        return
+    lk, ul = lockf[0], unlockf[0]
+    # acquisition primitives in lock()
+    prims = []
+    for bid, i, el in lk.roots():
+        for n in walk(el["expr"]):
+            if n.get("k") == "call" and short(n.get("name") or "") in ("compare_exchange_weak", "compare_exchange_strong", "exchange", "test_and_set"):
+                prims.append((bid, i, el, n))
+    if not prims:
+        ctx.broken("R09.6", lk, "lock-acquire-loop", "%s::lock() uses no atomic read-modify-write (compare_exchange / exchange / test_and_set): idiom not recognised" % mt, lk)
+        return
+    for bid, i, el, n in prims:
+        nm = short(n.get("name") or "")
+        args = [a for a in n.get("args", []) if not (isinstance(a, dict) and a.get("k") == "defarg")]
+        # lock() returns only through the success edge of a primitive that sits in a branch condition
+        cond = lk.term(bid).get("cond")
+        c2, neg = cfg.strip_not(cond) if cond is not None else (None, False)
+        in_cond = c2 is not None and ir.unwrap(c2) == n
+        if nm.startswith("compare_exchange"):
+            succ_lab = "false" if neg else "true"
+            desired_true = len(args) >= 2 and _lit(args[1]) is True
+            # must-fact at the call: the `expected` local holds false (set by its declaration or an assignment, not yet clobbered by a failed CAS)
+            ev = ir.unwrap(args[0]) if args else None
+            evn = ev["decl"].split(":", 1)[1] if isinstance(ev, dict) and ev.get("k") == "ref" else None
+
+            def tf(st, b, j, x, evn=evn):
+                xx = x.get("expr")
+                if not isinstance(xx, dict):
+                    return st
+                if xx.get("k") == "decl":
+                    for v in xx.get("vars", []):
+                        if v["name"] == evn:
+                            st = _lit(v.get("init")) is False
+                    return st
+                for m in walk(xx):
+                    if m.get("k") == "bin" and m.get("op") == "=" and fmt(m["l"]) == evn:
+                        st = _lit(m["r"]) is False
+                    if m.get("k") == "call" and short(m.get("name") or "").startswith("compare_exchange") and m.get("args") and fmt(ir.unwrap(m["args"][0])) == evn:
+                        st = False  # a failed CAS stores the observed value (taken) into `expected`
+                return st
+            IN, before = cfg.forward(lk, False, tf, lambda st, b, to, lab: st, lambda a, b: a and b)
+            fresh = before.get((bid, i), False) is True
+            ctx.check(bool(evn) and fresh and desired_true, "R09.6", lk, "cas-expects-free@%s" % _rel(lk, el.get("ln")),
+                      "%s(%s, ...) at line %s can run with `%s` still holding the value a failed attempt stored into it (taken): the exchange taken->taken then 'succeeds' while "
+                      "another thread owns the lock, and two threads are inside the critical section" % (nm, evn, el.get("ln"), evn), (lk, el.get("ln")),
+                      why_ok="`%s` is false on every path into the CAS" % evn)
+        else:
+            succ_lab = "true" if neg else "false"  # exchange(true) / test_and_set() return the OLD value: acquired iff it was false
+            ok_arg = nm == "test_and_set" or (args and _lit(args[0]) is True)
+            ctx.check(bool(ok_arg), "R09.6", lk, "tas-sets-taken@%s" % _rel(lk, el.get("ln")), "%s at line %s does not store `taken`" % (fmt(n), el.get("ln")), (lk, el.get("ln")))
+        if not in_cond:
+            ctx.broken("R09.6", lk, "lock-acquire-loop", "the result of %s at line %s is not a branch condition: acquire loop not recognised" % (nm, el.get("ln")), (lk, el.get("ln")))
+            continue
+        # every return of lock() is reached only through the success edge
+        tgt = [to for to, lab in lk.succs(bid) if lab == succ_lab]
+        ok_exit = bool(tgt) and not cfg.reachable_without_edge(lk, bid, tgt[0], lk.exit)
+        ctx.check(ok_exit, "R09.6", lk, "returns-only-after-acquire", "%s::lock() can return without its atomic operation having succeeded" % mt, lk)
+    # unlock stores `free`
+    rel = False
+    for bid, i, el in ul.roots():
+        for n in walk(el["expr"]):
+            if n.get("k") == "call" and short(n.get("name") or "") in ("store", "clear", "exchange"):
+                a = [x for x in n.get("args", []) if not (isinstance(x, dict) and x.get("k") == "defarg")]
+                if short(n.get("name") or "") == "clear" or (a and _lit(a[0]) is False):
+                    rel = True
+            if n.get("k") == "bin" and n.get("op") == "=" and _lit(n["r"]) is False:
+                rel = True
+    ctx.check(rel, "R09.6", ul, "unlock-stores-free", "%s::unlock() does not store `free`" % mt, ul)
+    ctx.trust("a hand-written lock is verified for its acquire/release protocol only (memory orders: acquire on success, release on unlock are not decided)")
+
+
+def _lit(n):
+    n = ir.unwrap(n)
+    while isinstance(n, dict) and n.get("k") in ("cast", "construct") and (n.get("e") is not None or len(n.get("args", [])) == 1):
+        n = ir.unwrap(n["e"] if n.get("k") == "cast" else n["args"][0])
+    if isinstance(n, dict) and n.get("k") == "init_list" and len(n.get("elems", [])) == 1:
+        return _lit(n["elems"][0])
+    if isinstance(n, dict) and n.get("k") == "lit" and n.get("t") == "bool":
+        return bool(n["v"])
+    return None
